@@ -292,8 +292,10 @@ struct extents_constructor {
       constexpr size_t new_static_extent = new_static_extent_t::value;
       using next_t =
           extents_constructor<K - 1, Extents, NewExtents..., new_static_extent>;
+      // the run-time value of a static extent must be that static extent
+      // (extent / stride is not: it is 1 + (extent - 1) / stride)
       return next_t::next_extent(
-          ext, slices_and_extents..., index_t(divide<index_t>(ExtentType(), StrideType())));
+          ext, slices_and_extents..., index_t(new_static_extent));
     }
   }
 };
